@@ -379,7 +379,15 @@ impl ServerModel {
                     alts.push((1, self.clone()));
                 }
             }
-            SIn::DataOther | SIn::Other => alts.extend(self.none()),
+            SIn::DataOther => alts.extend(self.none()),
+            SIn::Other => {
+                // unknown commands and other messages: the statement neither requires nor
+                // forbids a reply (real servers answer releaseStream / FCPublish with _result)
+                if matches!(outs.first(), Some(SOut::Result { .. }) | Some(SOut::Error { .. })) {
+                    alts.push((1, self.clone()));
+                }
+                alts.extend(self.none());
+            }
         }
         alts
     }
